@@ -164,14 +164,14 @@ class RustGen:
         self.wrappers.append(
             '#[derive(Clone, Hash, PartialEq, Eq)] pub struct %s; impl pest_typed::StringWrapper for %s { const CONTENT: &\'static str = %s; }'
             % (name, name, rust_str_lit(b)))
-        return 'w::' + name
+        return 'wrp::' + name
 
     def array_wrapper(self, bs):
         name = 'W%d' % len(self.wrappers)
         self.wrappers.append(
             '#[derive(Clone, Hash, PartialEq, Eq)] pub struct %s; impl pest_typed::StringArrayWrapper for %s { const CONTENT: &\'static [&\'static str] = &[%s]; }'
             % (name, name, ', '.join(rust_str_lit(b) for b in bs)))
-        return 'w::' + name
+        return 'wrp::' + name
 
     def k(self, k):
         return {'off': '0', 'on': '1', 'inh': 'INHERITED'}[k]
@@ -268,7 +268,7 @@ use crate::rt;
 pub enum Rule { %(variants)s }
 impl rt::Idx for Rule { fn idx(&self) -> usize { *self as usize } }
 
-pub mod w {
+pub mod wrp {
 %(wrappers)s
 }
 %(big)s
